@@ -1752,3 +1752,65 @@ Lemma contracts_nonvacuous :
   valid_utf8 wOK_old = true /\ valid_utf8 wOK_new = true /\
   wf_lattrs [mkLattr 1 1 w_ai1 None; mkLattr 3 3 w_ai2 None] (line_count w_rt_text) = true.
 Proof. repeat split; try (vm_compute; reflexivity). vm_compute. congruence. Qed.
+
+(* ================================================================== identical text: normal forms are fixpoints *)
+Lemma str_cmp_antisym : forall a b, str_cmp b a = CompOpp (str_cmp a b).
+Proof.
+  induction a as [|x a IH]; intros [|y b]; cbn [str_cmp CompOpp]; auto.
+  rewrite (N.compare_antisym x y). destruct (x ?= y); cbn [CompOpp]; auto.
+Qed.
+
+Lemma cmp4_antisym a b : cmp4 b a = CompOpp (cmp4 a b).
+Proof.
+  unfold cmp4.
+  rewrite (N.compare_antisym (a_start a) (a_start b)). destruct (a_start a ?= a_start b); cbn [CompOpp]; auto.
+  rewrite (N.compare_antisym (a_end a) (a_end b)). destruct (a_end a ?= a_end b); cbn [CompOpp]; auto.
+  rewrite (str_cmp_antisym (a_author a) (a_author b)). destruct (str_cmp (a_author a) (a_author b)); cbn [CompOpp]; auto.
+  apply N.compare_antisym.
+Qed.
+
+Lemma le4_total x y : le4 x y = false -> le4 y x = true.
+Proof. unfold le4. rewrite (cmp4_antisym x y). destruct (cmp4 x y); cbn [CompOpp]; congruence. Qed.
+
+Lemma insert_adj x : forall l, adj le4 l -> adj le4 (insert_by le4 x l).
+Proof.
+  induction l as [|y t IH]; intros H; cbn [insert_by]; [exact I|].
+  destruct (le4 x y) eqn:E.
+  - cbn [adj]. split; auto.
+  - pose proof (le4_total x y E) as Hyx. destruct t as [|z t'].
+    + cbn [insert_by adj]. auto.
+    + cbn [adj] in H. destruct H as [H1 H2]. specialize (IH H2). cbn [insert_by] in *.
+      destruct (le4 x z); cbn [adj] in *; auto.
+Qed.
+
+Lemma sort4_adj l : adj le4 (sort4 l).
+Proof. unfold sort4. induction l as [|x t IH]; cbn [sort_by]; [exact I|]. apply insert_adj. exact IH. Qed.
+
+Lemma sort4_idem l : sort4 (sort4 l) = sort4 l.
+Proof. apply (sort_by_id le4). apply sort4_adj. Qed.
+
+Lemma eq_step_id len : forall l,
+  Forall (fun a => a_start a < a_end a /\ a_end a <= len) l -> eq_step l 0 0 len = l.
+Proof.
+  induction l as [|a t IH]; intros H; [reflexivity|]. inversion H as [|? ? Ha Ht]; subst.
+  unfold eq_step in *. cbn [flat_map]. rewrite (IH Ht). unfold inter.
+  replace (N.max (a_start a) 0) with (a_start a) by lia.
+  replace (N.min (a_end a) (0 + len)) with (a_end a) by lia.
+  replace (a_start a <? a_end a) with true by lia. cbn [app]. f_equal.
+  destruct a as [s e u t0]. cbn [a_start a_end a_author a_ts] in *. f_equal; lia.
+Qed.
+
+(* a list in merge-normal form whose ranges are non-empty and inside the text is returned unchanged
+   by an update with the identical text (facts: the single Equal segment) *)
+Theorem identity_fixpoint : forall old attrs author ts,
+  merge attrs = attrs ->
+  Forall (fun a => a_start a < a_end a /\ a_end a <= blen old) attrs ->
+  update attrs author ts (mkFacts [(DEq, old)] [] []) = Ok attrs.
+Proof.
+  intros old attrs author ts Hm Hf. unfold update, transform.
+  cbn [f_segs f_moves f_subst transform_go insertions].
+  rewrite app_nil_r. rewrite eq_step_id.
+  - unfold merge. rewrite sort4_idem. exact (f_equal Ok Hm).
+  - apply Forall_forall. intros a Ha. unfold sort4 in Ha. rewrite sort_by_In in Ha.
+    rewrite Forall_forall in Hf. auto.
+Qed.
